@@ -12,6 +12,7 @@ import (
 	"runtime"
 	"strings"
 	"testing"
+	"time"
 )
 
 func TestVerifSearch_AuthIp(t *testing.T) {
@@ -146,6 +147,82 @@ func TestVerifSearch_AuthIpRapidReload(t *testing.T) {
 				verifWitness(t, "round %d: reload listing %d addresses, then at once a reload listing none: Validate(%q) = true", round, n, ip)
 				return
 			}
+		}
+	}
+}
+
+// Bounded stand-in for the part of C18 no contract reaches (the watcher goroutine and fsnotify): a real
+// watcher on a temporary directory, a history of edits of every kind the property names (in-place write,
+// rewrite by rename, remove and re-create, enable/disable), and after each edit the admitted set must
+// become the file's within the deadline.
+func TestVerifSearch_AuthIpWatcher(t *testing.T) {
+	dir := t.TempDir()
+	name := "authip.yaml"
+	full := filepath.Join(dir, name)
+	universe := []string{"10.0.0.1", "10.0.0.2", "::1", "fe80::1%eth0"}
+	content := func(enable bool, list []string) string {
+		s := fmt.Sprintf("enable: %v\nip_white_list:\n", enable)
+		for _, ip := range list {
+			s += fmt.Sprintf("  - %q\n", ip)
+		}
+		return s
+	}
+	os.WriteFile(full, []byte(content(true, []string{"10.0.0.1"})), 0o644)
+	IpMap = ipMap{}
+	if err := LoopIPWhiteList(dir, name); err != nil {
+		t.Fatal(err)
+	}
+	rng := rand.New(rand.NewSource(verifSeed()))
+	steps := 8
+	if verifThorough() {
+		steps = 40
+	}
+	kinds := []string{"write in place", "rewrite by rename", "remove and re-create"}
+	var trace []string
+	for s := 0; s < steps; s++ {
+		enable := rng.Intn(4) != 0
+		var list []string
+		for _, u := range universe {
+			if rng.Intn(2) == 0 {
+				list = append(list, u)
+			}
+		}
+		kind := kinds[s%len(kinds)]
+		if s >= len(kinds) {
+			kind = kinds[rng.Intn(len(kinds))]
+		}
+		data := []byte(content(enable, list))
+		switch kind {
+		case "write in place":
+			os.WriteFile(full, data, 0o644)
+		case "rewrite by rename":
+			tmp := filepath.Join(dir, ".authip.yaml.tmp")
+			os.WriteFile(tmp, data, 0o644)
+			os.Rename(tmp, full)
+		case "remove and re-create":
+			os.Remove(full)
+			os.WriteFile(full, data, 0o644)
+		}
+		trace = append(trace, fmt.Sprintf("%s: enable=%v %v", kind, enable, list))
+		want := map[string]bool{}
+		for _, ip := range list {
+			want[ip] = true
+		}
+		ok := func() bool {
+			for _, u := range append(universe, "9.9.9.9") {
+				if IpMap.Validate(u) != (!enable || want[u]) {
+					return false
+				}
+			}
+			return true
+		}
+		deadline := time.Now().Add(10 * time.Second)
+		for !ok() && time.Now().Before(deadline) {
+			time.Sleep(5 * time.Millisecond)
+		}
+		if !ok() {
+			verifWitness(t, "watcher on %s, edits %q: 10 s after the last edit the admitted set is still not the file's (enable=%v, admitted %v)", full, trace, IpMap.enable, IpMap.List())
+			return
 		}
 	}
 }
